@@ -9,6 +9,7 @@ use std::marker::PhantomData;
 use std::os::fd::IntoRawFd;
 use std::os::unix::io::{AsRawFd, RawFd};
 
+use virtio_queue::QueueT;
 use vmm_sys_util::epoll::{ControlOperation, Epoll, EpollEvent, EventSet};
 use vmm_sys_util::event::EventNotifier;
 
@@ -220,8 +221,9 @@ where
             #[cfg(feature = "verif-hooks")]
             vhost::verif::hit("w.after_read", &[self.thread_id as u64, device_event as u64, enabled as u64]);
 
-            // If the vring is not enabled, it should not be processed.
-            if !enabled {
+            // If the vring is not enabled, or has been stopped in the meantime (the wake-up
+            // predates a GET_VRING_BASE), it should not be processed.
+            if !enabled || !vring.get_ref().get_queue().ready() {
                 return Ok(false);
             }
         }
